@@ -35,14 +35,14 @@ contract(M + "quso_to_qubo", props=["C04", "C19"],
 contract(M + "pubo_to_puso.<locals>.generate_new_key_value", props=["C04", "C19"],
          instances=[{"k": "key"}],
          gen={"item": ("key", "value"), "kinds": ("key", "real"), "sum": "value * smono(key)", "total": "bmono(k)",
-              "each": "implies(matvalid(k), matvalid(key))"},
+              "each": "implies(matvalid(k), matvalid(key)) and keyanc(key) <= keyanc(k)"},
          decreases="klen(k)",
          loops={1: {"invariant": "yielded == xv(k[0]) * visited"}})
 
 contract(M + "puso_to_pubo.<locals>.generate_new_key_value", props=["C04", "C19"],
          instances=[{"k": "key"}],
          gen={"item": ("key", "value"), "kinds": ("key", "real"), "sum": "value * bmono(key)", "total": "smono(k)",
-              "each": "implies(matvalid(k), matvalid(key))"},
+              "each": "implies(matvalid(k), matvalid(key)) and keyanc(key) <= keyanc(k)"},
          decreases="klen(k)",
          loops={1: {"invariant": "yielded == zv(k[0]) * visited"}})
 
@@ -50,14 +50,16 @@ contract(M + "pubo_to_puso", props=["C04", "C19"],
          instances=[{"P": k} for k in ("termdict", "model:PUBOMatrix", "model:PUBO", "model:PCBO", "model:QUBO", "model:QUBOMatrix")],
          requires=["wf(P) if not typeis(P, 'dict') else True"],
          returns=_rtype("PUBOMatrix", "PUSOMatrix", "PUSO"),
-         ensures=["sden(result) == bden(P)", "wf(result)", "isfresh(result)", _typerule("P", "PUBOMatrix", "PUSOMatrix", "PUSO")],
-         loops={1: {"invariant": "sden(H) == bden(visited) and wf(H)"},
-                2: {"invariant": "sden(H) == bden(visited1) + v * visited and wf(H)"}})
+         ensures=["sden(result) == bden(P)", "wf(result)", "isfresh(result)", _typerule("P", "PUBOMatrix", "PUSOMatrix", "PUSO"),
+                  "implies(keys_ancbelow(P, gn()), keys_ancbelow(result, gn()))"],
+         loops={1: {"invariant": "sden(H) == bden(visited) and wf(H) and implies(keys_ancbelow(P, gn()), keys_ancbelow(H, gn()))"},
+                2: {"invariant": "sden(H) == bden(visited1) + v * visited and wf(H) and implies(keys_ancbelow(P, gn()), keys_ancbelow(H, gn()))"}})
 
 contract(M + "puso_to_pubo", props=["C04", "C19"],
          instances=[{"H": k} for k in ("termdict", "model:PUSOMatrix", "model:PUSO", "model:PCSO", "model:QUSO", "model:QUSOMatrix")],
          requires=["wf(H) if not typeis(H, 'dict') else True"],
          returns=_rtype("PUSOMatrix", "PUBOMatrix", "PUBO"),
-         ensures=["bden(result) == sden(H)", "wf(result)", "isfresh(result)", _typerule("H", "PUSOMatrix", "PUBOMatrix", "PUBO")],
-         loops={1: {"invariant": "bden(P) == sden(visited) and wf(P)"},
-                2: {"invariant": "bden(P) == sden(visited1) + v * visited and wf(P)"}})
+         ensures=["bden(result) == sden(H)", "wf(result)", "isfresh(result)", _typerule("H", "PUSOMatrix", "PUBOMatrix", "PUBO"),
+                  "implies(keys_ancbelow(H, gn()), keys_ancbelow(result, gn()))"],
+         loops={1: {"invariant": "bden(P) == sden(visited) and wf(P) and implies(keys_ancbelow(H, gn()), keys_ancbelow(P, gn()))"},
+                2: {"invariant": "bden(P) == sden(visited1) + v * visited and wf(P) and implies(keys_ancbelow(H, gn()), keys_ancbelow(P, gn()))"}})
